@@ -634,6 +634,7 @@ func r086(c *Ctx, r *R) {
 		{"api", "PinTypeFromString"}, {"api", "PinModeFromString"}, {"api", "TrackerStatusFromString"}, {"api", "IPFSPinStatusFromString"},
 		{"state/dsstate", "State.deserializePin"}, {"state/dsstate", "State.Unmarshal"}, {"cmdutils", "importState"},
 	}
+	fills := 0
 	for _, d := range decoders {
 		f := c.P.Func(d[0], d[1])
 		key := d[0] + "." + d[1]
@@ -689,10 +690,66 @@ func r086(c *Ctx, r *R) {
 				}
 			}
 		})
+		// indexed fill is complete: a slice sized beforehand (make with a
+		// length) and filled by index inside a loop gets its element on
+		// every path that continues the loop; a `continue` around the
+		// store leaves a zero element (a nil interface or pointer, an
+		// empty id) inside a value the decoder reports as good.
+		instrs(f, func(i ssa.Instruction) {
+			st, ok := i.(*ssa.Store)
+			if !ok {
+				return
+			}
+			ia, ok := st.Addr.(*ssa.IndexAddr)
+			if !ok {
+				return
+			}
+			if _, ok := ia.X.(*ssa.MakeSlice); !ok {
+				return
+			}
+			B := st.Block()
+			reach := func(from []*ssa.BasicBlock, target, avoid *ssa.BasicBlock) bool {
+				seen := map[*ssa.BasicBlock]bool{}
+				var stack []*ssa.BasicBlock
+				stack = append(stack, from...)
+				for len(stack) > 0 {
+					x := stack[len(stack)-1]
+					stack = stack[:len(stack)-1]
+					if x == avoid || seen[x] {
+						continue
+					}
+					seen[x] = true
+					if x == target {
+						return true
+					}
+					stack = append(stack, x.Succs...)
+				}
+				return false
+			}
+			// the loop header: the nearest dominator that the store's
+			// block can reach again
+			var H *ssa.BasicBlock
+			for d := B.Idom(); d != nil; d = d.Idom() {
+				if reach(B.Succs, d, nil) {
+					H = d
+					break
+				}
+			}
+			if H == nil {
+				return // not in a loop
+			}
+			if reach(H.Succs, H, B) {
+				probs = append(probs, fmt.Sprintf("can continue the loop without storing the element of the slice sized beforehand (store at %s): a zero element stays in the decoded value", c.P.Pos(st.Pos())))
+			}
+			fills++
+		})
 		if len(probs) == 0 {
-			r.OK("decoder:"+key, f.Pos(), "no panic, no unchecked assertion, no dropped error")
+			r.OK("decoder:"+key, f.Pos(), "no panic, no unchecked assertion, no dropped error, indexed fills complete")
 		} else {
 			r.Bad("decoder:"+key, f.Pos(), "decoder %s %s: malformed input is accepted or crashes instead of being refused", key, strings.Join(probs, "; "))
 		}
 	}
+	// no floor on purpose: a decoder rewritten with append has no such fill
+	// and cannot leave a hole
+	r.OK("decoder:indexed-fills-seen", token.NoPos, "%d indexed fills of pre-sized slices examined", fills)
 }
